@@ -781,6 +781,11 @@ func DrawNoiseWithAliases(rt *rapid.T) am.Noise {
 			}
 		}
 	}
+	// named function types at call sites, in modules that spell their scalar types plainly (the alias
+	// definition spells its parameter types plainly, too)
+	if n.TypeAlias == nil {
+		n.FnAlias = rapid.IntRange(0, 2).Draw(rt, "n.fnalias") == 0
+	}
 	return n
 }
 
